@@ -25,6 +25,19 @@ def run(id_, also, tier, confirm):
     if meta.get("base_commit"):
         env["MUT_BASE"] = meta["base_commit"]
     out = subprocess.run([os.path.join(ROOT, "tools/trymutant.sh"), os.path.join(d, "patch.diff")] + props, capture_output=True, text=True, env=env).stdout
+    base_sigs = None
+    if meta.get("base_commit"):
+        # the base commit predates later repairs: what the checks report on the base tree itself does not count
+        bout = subprocess.run([os.path.join(ROOT, "tools/trymutant.sh"), os.path.join(d, "patch.diff")] + props, capture_output=True, text=True, env=dict(env, MUT_NOPATCH="1")).stdout
+        base_sigs = {}
+        cur = None
+        for line in bout.splitlines():
+            m = re.match(r"CHECK (C\d+) rc=", line)
+            if m:
+                cur = m.group(1); base_sigs[cur] = set(); continue
+            m = re.match(r"\s+signature: (.*?)\s+\(x", line)
+            if m and cur:
+                base_sigs[cur].add(m.group(1))
     suite = "pass" if "MUTANT: suite PASS" in out else "FAIL"
     results = {r["check"] + "/" + r["tier"]: r for r in meta.get("checks_run", [])}
     cur = None
@@ -40,6 +53,15 @@ def run(id_, also, tier, confirm):
             cur["signatures"].append({"sig": m.group(1), "count": int(m.group(2)), "first_at": m.group(3)})
         if line.startswith("INCONCLUSIVE") and cur is not None:
             cur.setdefault("inconclusive", []).append(line[:300])
+    if base_sigs is not None:
+        for r in results.values():
+            if r["tier"] == tier and r["check"] in base_sigs and r["check"] in props:
+                known = base_sigs[r["check"]]
+                r["signatures_also_on_base_tree"] = sorted(known)
+                r["signatures"] = [x for x in r["signatures"] if x["sig"] not in known]
+                if r["exit"] == 1 and not r["signatures"]:
+                    r["exit"] = 0
+                    r["note"] = "every signature is also reported on the base tree without the change"
     meta["pinned_suite_with_change"] = suite
     meta["checks_run"] = sorted(results.values(), key=lambda r: (r["check"], r["tier"]))
     meta["caught_by"] = sorted({r["check"] for r in meta["checks_run"] if r["exit"] == 1})
